@@ -914,6 +914,20 @@ impl Engine for BuildEngine {
             }
         };
         ctx.logical_steps += outcome.ops as u64;
+        if sc.spec.id.starts_with("acceptance/") {
+            // For the cross-process history check: the reference observables of one (project,
+            // options) pair must have one digest whichever worker process computed them.
+            let r = reference(&sc.spec, &sc.opts);
+            ctx.stats.note(
+                "reference_digests",
+                &format!(
+                    "{}|{}|{:016x}",
+                    sc.spec.id,
+                    sc.opts.tag(),
+                    crate::rng::mix(r.build.digest(), r.check.digest_unordered(), hash_str(&format!("{:?}", r.exports)))
+                ),
+            );
+        }
         ctx.stats.inc("evaluations", outcome.ops as u64 + outcome.generator_compiles as u64);
         ctx.stats.inc(&format!("scenario_{}", scenario_kind(&sc)), 1);
         ctx.stats.inc("generator_history_compiles", outcome.generator_compiles as u64);
@@ -1051,6 +1065,35 @@ impl Engine for BuildEngine {
                 "test order within a run is compared only between runs with the same hash epoch (it legitimately follows checked_modules iteration)".into(),
             ],
         }
+    }
+
+    fn history_check(&self, stats: &Stats) -> Vec<Violation> {
+        let mut by_key: BTreeMap<String, Vec<String>> = BTreeMap::new();
+        if let Some(set) = stats.notes.get("reference_digests") {
+            for entry in set {
+                if let Some((key, digest)) = entry.rsplit_once('|') {
+                    by_key.entry(key.to_string()).or_default().push(digest.to_string());
+                }
+            }
+        }
+        let mut out = vec![];
+        for (key, digests) in by_key {
+            if digests.len() > 1 {
+                out.push(Violation {
+                    property: PROP.to_string(),
+                    class: "divergence:across-processes".into(),
+                    signature: format!("divergence|across-processes|{}", key.split('|').next().unwrap_or("")),
+                    detail: format!(
+                        "reference build of {key} (fixed hash epoch, sorted creation order, one thread) gave {} different digests in different worker processes: {digests:?}",
+                        digests.len()
+                    ),
+                    trace: json!({ "rerun": { "k": 0, "seed": 0, "tier": "quick" }, "note": "cross-process history check; re-run the batch" }),
+                    seed_k: 0,
+                    k: 0,
+                });
+            }
+        }
+        out
     }
 
     fn hang_bound(&self, _tier: Tier) -> std::time::Duration {
